@@ -47,6 +47,13 @@ func runC08(p *Prog, r *Report) {
 	}
 	checkResultChan(p, r)
 	checkLogResults(p, r, "C08.R3")
+	// R5: results detected before completion are still drained: cancel only after done + exit delay
+	r.Min("C08.R5", 2)
+	for _, f := range engineCallers(p) {
+		if f.Pkg == p.SPkg("command") {
+			checkCancelOrder(p, r, f, "C08.R5", "C08.R5")
+		}
+	}
 }
 
 func checkWorker(p *Prog, r *Report, fn *ssa.Function) {
@@ -152,7 +159,7 @@ func checkWorker(p *Prog, r *Report, fn *ssa.Function) {
 		}
 		switch {
 		case !rk:
-			r.Check(len(puts) == 1 && len(emits) == 0 && res != nil && s.Same(puts[0].Call.Args[0], res), "C08.R1", key, pos, "a successful probe's result is handed over exactly once", fmt.Sprintf("puts=%d (result not nil-tested)", len(puts)), path...)
+			r.Check(len(puts) == 0 && len(emits) == 0, "C08.R1", key, pos, "a result is handed over only after a non-nil test (negative probes return a nil result)", fmt.Sprintf("puts=%d without a nil test of the result: a negative probe would be reported / crash the logger", len(puts)), path...)
 		case rnil:
 			r.Check(len(puts) == 0 && len(emits) == 0, "C08.R1", key, pos, "a negative probe reports nothing", fmt.Sprintf("puts=%d reports=%d", len(puts), len(emits)), path...)
 		default:
